@@ -134,6 +134,21 @@ class Check:
             },
         }
         ev['coverage'].update(self.extra)
+        # obligations per family (first two name components), and the vacuity guard against the counts recorded on the
+        # unchanged tree (family_baseline.json, generated by tools_family_baseline.py, never written at run time): a family
+        # that exists there and generates no obligation now has silently dropped out -> machinery error (exit 2)
+        fams = {}
+        for o in self.obs:
+            fam = '.'.join(o.name.split('.')[:2])
+            fams[fam] = fams.get(fam, 0) + 1
+        ev['coverage']['obligations_by_family'] = fams
+        try:
+            base = json.load(open(os.path.join(VERIF, 'family_baseline.json'))).get(self.pid, {})
+        except (OSError, ValueError):
+            base = {}
+        for fam, cnt in sorted(base.items()):
+            if cnt > 0 and fams.get(fam, 0) == 0 and not any(fam in e for e in self.machinery_errors):
+                self.error('vacuity: obligation family %s generated %d obligations on the reference tree and none now' % (fam, cnt))
         os.makedirs(os.path.join(VERIF, 'evidence'), exist_ok=True)
         with open(os.path.join(VERIF, 'evidence', self.pid + '.json'), 'w') as f:
             json.dump(ev, f, indent=1, default=str)
